@@ -53,16 +53,23 @@ fn x_table() -> &'static HashMap<Vec<u8>, u32> {
 }
 fn rawpkh_table() -> &'static HashMap<hash160::Hash, u32> {
     static T: std::sync::OnceLock<HashMap<hash160::Hash, u32>> = std::sync::OnceLock::new();
-    T.get_or_init(|| (0..10).chain(100..104).chain(200..210).map(|id| (ast::raw_pkh(id), id)).collect())
+    T.get_or_init(|| (0..40).chain(100..104).chain(200..240).map(|id| (ast::raw_pkh(id), id)).collect())
 }
 
 pub trait KeyId9 { fn id9(&self) -> Option<u32>; }
 impl KeyId9 for PublicKey { fn id9(&self) -> Option<u32> { full_table().get(&self.to_bytes()).cloned() } }
 impl KeyId9 for XOnlyPublicKey { fn id9(&self) -> Option<u32> { x_table().get(&self.serialize().to_vec()).cloned() } }
 
-pub trait HKey9: KeyOf + KeyId9 {}
-impl HKey9 for PublicKey {}
-impl HKey9 for XOnlyPublicKey {}
+pub trait HKey9: KeyOf + KeyId9 {
+    /// `Miniscript::from_str_with_validation_params(.., MAX)` (needs the concrete key type's `FromStr`)
+    fn ms_from_str<Ctx: ScriptContext>(s: &str) -> Result<Miniscript<Self, Ctx>, miniscript::Error>;
+}
+impl HKey9 for PublicKey {
+    fn ms_from_str<Ctx: ScriptContext>(s: &str) -> Result<Miniscript<Self, Ctx>, miniscript::Error> { Miniscript::from_str_with_validation_params(s, &ValidationParams::MAX) }
+}
+impl HKey9 for XOnlyPublicKey {
+    fn ms_from_str<Ctx: ScriptContext>(s: &str) -> Result<Miniscript<Self, Ctx>, miniscript::Error> { Miniscript::from_str_with_validation_params(s, &ValidationParams::MAX) }
+}
 
 /// genuine ECDSA signatures of the MAXIMAL standard length: 71-byte DER (33-byte r, 32-byte
 /// low s) + sighash byte = 72 bytes, i.e. 73 bytes with the length prefix / push opcode.
@@ -252,6 +259,14 @@ fn emit_bound<Pk: HKey9, Ctx: ScriptContext>(out: &mut Out, ctx: CtxK, node: &No
 where for<'a> Sat9<'a>: Satisfier<Pk>
 {
     let ms: Miniscript<Pk, Ctx> = match ast::to_ms(node) { Ok(m) => m, Err(_) => return };
+    emit_bound_ms(out, ctx, &node.wire(), &ms, assets, mall, pad)
+}
+
+/// the judged line for an OBJECT (whatever route built it): its own stored figures against the
+/// satisfaction it produces; `label` only names the case
+fn emit_bound_ms<Pk: HKey9, Ctx: ScriptContext>(out: &mut Out, ctx: CtxK, label: &str, ms: &Miniscript<Pk, Ctx>, assets: &Assets, mall: bool, pad: bool)
+where for<'a> Sat9<'a>: Satisfier<Pk>
+{
     let sat = Sat9 { a: assets, pad, keyspend: false };
     let mode = if mall { "mall" } else { "nonmall" };
     let res = std::panic::catch_unwind(std::panic::AssertUnwindSafe(|| {
@@ -262,7 +277,7 @@ where for<'a> Sat9<'a>: Satisfier<Pk>
     let (tmpl, wit) = match res {
         Ok(x) => x,
         Err(_) => {
-            out.line(&format!("J nopanic bound/satisfy {} {} {} {} PANIC", ctx.name(), node.wire(), assets.wire(), mode), "ok");
+            out.line(&format!("J nopanic bound/satisfy {} {} {} {} PANIC", ctx.name(), label, assets.wire(), mode), "ok");
             return;
         }
     };
@@ -279,7 +294,7 @@ where for<'a> Sat9<'a>: Satisfier<Pk>
     let (lim, vc, vs, mss, mwe) = match api {
         Ok(x) => x,
         Err(_) => {
-            out.line(&format!("J nopanic bound/api {} {} PANIC", ctx.name(), node.wire()), "ok");
+            out.line(&format!("J nopanic bound/api {} {} PANIC", ctx.name(), label), "ok");
             return;
         }
     };
@@ -290,7 +305,7 @@ where for<'a> Sat9<'a>: Satisfier<Pk>
     );
     out.line(
         &format!("J bound {} {} {} {} {} | {} {} {} {} lim={} st={} ssz={} pkc={} sat={} vc={} vs={} mss={} mwe={}",
-            ctx.name(), node.wire(), assets.wire(), mode, if pad { "pad" } else { "std" },
+            ctx.name(), label, assets.wire(), mode, if pad { "pad" } else { "std" },
             lt, sq, hex(script.as_bytes()), wit_wire(&wit),
             lim as u8, ms.ext.static_ops, ms.script_size(), ms.ext.pk_cost, show_satdata(&ms.ext.sat_data),
             vc as u8, vs as u8, on(mss), on(mwe)),
@@ -386,6 +401,122 @@ fn static_lines<Pk: HKey9, Ctx: ScriptContext>(out: &mut Out, ctx: CtxK, node: &
         }
         Err(_) => out.line(&format!("J nopanic static/api {} {} PANIC", ctx.name(), w), "ok"),
     }
+}
+
+/// R1: the figures are stored at construction; every construction route has to store the same
+/// ones.  `from_ast` is the route of `static_lines`; here the same script comes back from its text
+/// form (`from_str_with_validation_params`), from its Script encoding (`decode_with_validation_params`, both with `ValidationParams::MAX`), from the leaf constructors, from `translate_pk` and from `Clone`, and the figures of THAT
+/// object are compared with the model (`C extvia <route>`: ExtData, script_size, accessors).
+fn route_lines<Pk: HKey9, Ctx: ScriptContext<Key = Pk>>(out: &mut Out, ctx: CtxK, node: &Node)
+where for<'a> Sat9<'a>: Satisfier<Pk>
+{
+    let ms0: Miniscript<Pk, Ctx> = match ast::to_ms(node) { Ok(m) => m, Err(_) => return };
+    let w = node.wire();
+    let on = |x: Option<usize>| x.map(|v| v.to_string()).unwrap_or("none".into());
+    let show = |m: &Miniscript<Pk, Ctx>| format!("{} {} {} {}", msops::show_ext(&m.ext), m.script_size(),
+        on(m.max_satisfaction_size().ok()), on(m.max_satisfaction_witness_elements().ok()));
+    let text = ms0.to_string();
+    match std::panic::catch_unwind(std::panic::AssertUnwindSafe(|| Pk::ms_from_str::<Ctx>(&text))) {
+        Ok(Ok(m)) if m == ms0 => out.line(&format!("C extvia fromstr {} {}", ctx.name(), w), &show(&m)),
+        Ok(Ok(_)) => out.count("route: text round trip gives another script (C10's matter)"),
+        Ok(Err(_)) => out.count("route: from_str refuses the printed script (C10's matter)"),
+        Err(_) => out.line(&format!("J nopanic route/from_str {} {} PANIC", ctx.name(), w), "ok"),
+    }
+    // leaves through the public leaf constructors (`Miniscript::TRUE`, `pk_k`, `pk`, `pkh`, `after`,
+    // `sha256`, `multi`, ...: they compute their ExtData themselves), the rest by from_ast over them
+    match std::panic::catch_unwind(std::panic::AssertUnwindSafe(|| to_ms_ctor::<Pk, Ctx>(node))) {
+        Ok(Some(m)) => {
+            out.line(&format!("C extvia ctor {} {}", ctx.name(), w), &show(&m));
+            // ... and that object's own figures against the satisfaction it produces (full assets)
+            let a = Assets::full(node);
+            emit_bound_ms::<Pk, Ctx>(out, ctx, &format!("ctor:{}", w), &m, &a, false, ctx != CtxK::Tap);
+        }
+        Ok(None) => out.count("route: constructor route refused"),
+        Err(_) => out.line(&format!("J nopanic route/ctor {} {} PANIC", ctx.name(), w), "ok"),
+    }
+    // translate_pk with the identity translator (rebuilds every node)
+    {
+        struct Id;
+        impl<Pk: MiniscriptKey> miniscript::Translator<Pk> for Id {
+            type TargetPk = Pk;
+            type Error = ();
+            fn pk(&mut self, pk: &Pk) -> Result<Pk, ()> { Ok(pk.clone()) }
+            fn sha256(&mut self, h: &Pk::Sha256) -> Result<Pk::Sha256, ()> { Ok(h.clone()) }
+            fn hash256(&mut self, h: &Pk::Hash256) -> Result<Pk::Hash256, ()> { Ok(h.clone()) }
+            fn ripemd160(&mut self, h: &Pk::Ripemd160) -> Result<Pk::Ripemd160, ()> { Ok(h.clone()) }
+            fn hash160(&mut self, h: &Pk::Hash160) -> Result<Pk::Hash160, ()> { Ok(h.clone()) }
+        }
+        match std::panic::catch_unwind(std::panic::AssertUnwindSafe(|| ms0.translate_pk(&mut Id))) {
+            Ok(Ok(m)) => out.line(&format!("C extvia translate {} {}", ctx.name(), w), &show(&m)),
+            Ok(Err(_)) => out.count("route: identity translate_pk refused"),
+            Err(_) => out.line(&format!("J nopanic route/translate_pk {} {} PANIC", ctx.name(), w), "ok"),
+        }
+    }
+    // Clone copies the stored figures
+    out.line(&format!("C extvia clone {} {}", ctx.name(), w), &show(&ms0.clone()));
+    let script = ms0.encode();
+    match std::panic::catch_unwind(std::panic::AssertUnwindSafe(|| Miniscript::<Pk, Ctx>::decode_with_validation_params(&script, &ValidationParams::MAX))) {
+        Ok(Ok(m)) if m == ms0 => out.line(&format!("C extvia decode {} {}", ctx.name(), w), &show(&m)),
+        // a decoded pk_h is a raw key hash: another script, with its own (worst-case) figures; that
+        // OBJECT is judged on the satisfactions it produces once the keys behind the hashes are known
+        Ok(Ok(m)) => {
+            out.count("route: decoded object (pk_h -> raw pkh) judged");
+            let mut a = Assets::full(node);
+            let mut ks = vec![];
+            node.keys(&mut ks);
+            for k in ks { a.rawpk.insert(k); a.rawsig.insert(k); }
+            let label = format!("decoded:{}", w);
+            for mall in [false, true] {
+                emit_bound_ms::<Pk, Ctx>(out, ctx, &label, &m, &a, mall, ctx != CtxK::Tap);
+            }
+        }
+        Ok(Err(_)) => out.count("route: decode refuses the encoded script (C04's matter)"),
+        Err(_) => out.line(&format!("J nopanic route/decode {} {} PANIC", ctx.name(), w), "ok"),
+    }
+}
+
+/// `ast::to_ms` with the leaves built by the library's public leaf constructors
+fn to_ms_ctor<Pk: HKey9, Ctx: ScriptContext>(n: &Node) -> Option<Miniscript<Pk, Ctx>> {
+    use miniscript::{AbsLockTime, RelLockTime, Terminal, Threshold};
+    use Node::*;
+    let sub = |x: &Node| -> Option<Arc<Miniscript<Pk, Ctx>>> { Some(Arc::new(to_ms_ctor::<Pk, Ctx>(x)?)) };
+    let keys = |v: &Vec<u32>| -> Vec<Pk> { v.iter().map(|i| Pk::of(*i)).collect() };
+    let hv = |k: HK, h: u32| ast::hash_value(k, h);
+    let t: Terminal<Pk, Ctx> = match n {
+        True => return Some(Miniscript::TRUE),
+        False => return Some(Miniscript::FALSE),
+        PkK(k) => return Some(Miniscript::pk_k(Pk::of(*k))),
+        PkH(k) => return Some(Miniscript::pk_h(Pk::of(*k))),
+        RawPkH(h) => return Some(Miniscript::expr_raw_pkh(ast::raw_pkh(*h))),
+        After(n) => return Some(Miniscript::after(AbsLockTime::from_consensus(*n).ok()?)),
+        Older(n) => return Some(Miniscript::older(RelLockTime::from_consensus(*n).ok()?)),
+        Hash(HK::Sha256, h) => return Some(Miniscript::sha256(sha256::Hash::from_slice(&hv(HK::Sha256, *h)).unwrap())),
+        Hash(HK::Hash256, h) => return Some(Miniscript::hash256(miniscript::hash256::Hash::from_slice(&hv(HK::Hash256, *h)).unwrap())),
+        Hash(HK::Ripemd160, h) => return Some(Miniscript::ripemd160(ripemd160::Hash::from_slice(&hv(HK::Ripemd160, *h)).unwrap())),
+        Hash(HK::Hash160, h) => return Some(Miniscript::hash160(hash160::Hash::from_slice(&hv(HK::Hash160, *h)).unwrap())),
+        Multi(k, v) => return Some(Miniscript::multi(Threshold::new(*k, keys(v)).ok()?)),
+        SortedMulti(k, v) => return Some(Miniscript::sortedmulti(Threshold::new(*k, keys(v)).ok()?)),
+        MultiA(k, v) => return Some(Miniscript::multi_a(Threshold::new(*k, keys(v)).ok()?)),
+        SortedMultiA(k, v) => return Some(Miniscript::sortedmulti_a(Threshold::new(*k, keys(v)).ok()?)),
+        // the `pk(K)` / `pkh(K)` sugar constructors
+        Check(x) => match &**x {
+            PkK(k) => return Some(Miniscript::pk(Pk::of(*k))),
+            PkH(k) => return Some(Miniscript::pkh(Pk::of(*k))),
+            _ => Terminal::Check(sub(x)?),
+        },
+        Alt(x) => Terminal::Alt(sub(x)?), Swap(x) => Terminal::Swap(sub(x)?), DupIf(x) => Terminal::DupIf(sub(x)?),
+        Verify(x) => Terminal::Verify(sub(x)?), NonZero(x) => Terminal::NonZero(sub(x)?), ZeroNotEqual(x) => Terminal::ZeroNotEqual(sub(x)?),
+        AndV(a, b) => Terminal::AndV(sub(a)?, sub(b)?), AndB(a, b) => Terminal::AndB(sub(a)?, sub(b)?),
+        AndOr(a, b, c) => Terminal::AndOr(sub(a)?, sub(b)?, sub(c)?),
+        OrB(a, b) => Terminal::OrB(sub(a)?, sub(b)?), OrD(a, b) => Terminal::OrD(sub(a)?, sub(b)?),
+        OrC(a, b) => Terminal::OrC(sub(a)?, sub(b)?), OrI(a, b) => Terminal::OrI(sub(a)?, sub(b)?),
+        Thresh(k, xs) => {
+            let mut v = Vec::with_capacity(xs.len());
+            for x in xs { v.push(sub(x)?); }
+            Terminal::Thresh(Threshold::new(*k, v).ok()?)
+        }
+    };
+    Miniscript::from_ast(t).ok()
 }
 
 macro_rules! with_ctx9 {
@@ -635,6 +766,171 @@ fn ctxs_of(tag: &str) -> Vec<CtxK> {
     v
 }
 
+/// R1: `substitute_raw_pkh` copies the stored figures of the raw-hash script onto a script with
+/// real keys (possibly longer ones): the resulting OBJECT's figures are judged on its satisfactions
+fn subst_route<Pk: HKey9, Ctx: ScriptContext>(out: &mut Out, ctx: CtxK, node: &Node)
+where for<'a> Sat9<'a>: Satisfier<Pk>
+{
+    let mut hs = vec![];
+    node.rawpkhs(&mut hs);
+    if hs.is_empty() { return; }
+    let ms0: Miniscript<Pk, Ctx> = match ast::to_ms(node) { Ok(m) => m, Err(_) => return };
+    let map: std::collections::BTreeMap<hash160::Hash, Pk> = hs.iter().map(|h| (ast::raw_pkh(*h), Pk::of(*h))).collect();
+    let ms1 = match std::panic::catch_unwind(std::panic::AssertUnwindSafe(|| ms0.substitute_raw_pkh(&map))) {
+        Ok(m) => m,
+        Err(_) => { out.line(&format!("J nopanic route/substitute_raw_pkh {} {} PANIC", ctx.name(), node.wire()), "ok"); return; }
+    };
+    let mut a = Assets::full(node);
+    for h in &hs { if *h >= 200 { a.schnorr.insert(*h, 65); } else { a.ecdsa.insert(*h); } }
+    let label = format!("subst:{}", node.wire());
+    out.count("route: substitute_raw_pkh object judged");
+    for mall in [false, true] { for pad in [false, true] {
+        if pad && ctx == CtxK::Tap { continue; }
+        emit_bound_ms::<Pk, Ctx>(out, ctx, &label, &ms1, &a, mall, pad);
+    } }
+}
+
+/// R2: scripts the library REFUSES today, each for one reason that matters for the figures (the
+/// figure rules assume the refusal): an uncompressed key in Segwitv0 (key push counted as 34),
+/// CHECKMULTISIG in tapscript / CHECKSIGADD outside, x-only key sizes.  They go through the same
+/// judges as everything else AS SOON AS the library accepts them; today they end in the judged
+/// `C accept ... ERR` line.
+fn refused_today() -> Vec<(CtxK, &'static str)> {
+    vec![
+        (CtxK::Segwitv0, "c(pk_k(100))"), (CtxK::Segwitv0, "c(pk_h(100))"), (CtxK::Segwitv0, "multi(1,0,100)"),
+        (CtxK::Segwitv0, "and_v(v(c(pk_k(100))),c(pk_k(0)))"), (CtxK::Segwitv0, "or_d(c(pk_k(0)),c(pk_h(101)))"),
+        (CtxK::Tap, "multi(1,200,201)"), (CtxK::Tap, "sortedmulti(1,200,201)"), (CtxK::Tap, "and_v(v(multi(1,200,201)),c(pk_k(202)))"),
+        (CtxK::Segwitv0, "multi_a(1,0,1)"), (CtxK::Legacy, "multi_a(1,0,1)"), (CtxK::Bare, "sortedmulti_a(1,0,1)"),
+        (CtxK::Segwitv0, "and_v(v(multi_a(2,0,1,2)),c(pk_k(3)))"),
+    ]
+}
+
+/* ---- R5: combinators over the RESULTS of casts ---------------------------------------------- */
+
+/// Every `ExtData` rule reads figures a child rule produced (`has_free_verify`, `pk_cost`,
+/// `static_ops`, satisfaction / dissatisfaction data).  `ast::wrapper_towers` stacks wrappers;
+/// this corpus puts the result of a cast (`l:` `u:` `t:` `n:` `j:` `dv:` over every atom kind, and
+/// two casts over a key) into EVERY child position of EVERY combinator, once with plain keys in
+/// the other positions and once with towers everywhere, and `v:` over every fragment with and
+/// without a free verify.  Returned: (script, judge-the-dissatisfaction-as-well).
+///   * the script itself is judged on its satisfactions (full assets, all-but-one, all-but-two:
+///     every tower is satisfied on some path and dissatisfied on another);
+///   * `or_d(S, <4 signatures>)` makes the DISSATISFACTION of S the largest path, so that an
+///     undershoot of `dissat_data` cannot hide behind a larger satisfaction (see `dis_embed`).
+/// `thin`: one tower per position instead of all (Bare / Legacy, whose rules are the generic ones
+/// already run in full for Segwitv0).
+fn cast_towers(ctx: CtxK, thin: bool) -> Vec<Node> {
+    use Node::*;
+    let tap = ctx == CtxK::Tap;
+    let b: u32 = if tap { 200 } else { 0 };
+    fn bx(n: Node) -> Box<Node> { Box::new(n) }
+    let pk = |k: u32| Check(bx(PkK(b + k)));
+    let typed_b = |n: &Node| with_ctx9!(ctx, base_of(n)) == Some(Base::B);
+    // towers over the keys k, k+1 (hash / lock atoms vary with k so that assets are independent)
+    let towers = |k: u32| -> Vec<Node> {
+        let atoms: Vec<Node> = vec![
+            pk(k), Check(bx(PkH(b + k))),
+            if tap { MultiA(1, vec![b + k, b + k + 1]) } else { Multi(1, vec![b + k, b + k + 1]) },
+            Hash(HK::Sha256, (k / 2) % 4), Older(10 + k), After(100 + k),
+        ];
+        let casts: [fn(Node) -> Node; 6] = [
+            |x| OrI(bx(False), bx(x)), |x| OrI(bx(x), bx(False)), |x| AndV(bx(Verify(bx(x))), bx(True)),
+            |x| ZeroNotEqual(bx(x)), |x| NonZero(bx(x)), |x| DupIf(bx(Verify(bx(x)))),
+        ];
+        let mut v = atoms.clone();
+        for a in &atoms { for c in casts { let t = c(a.clone()); if typed_b(&t) { v.push(t); } } }
+        // two casts over a key: the outer one reads what the inner one produced
+        for c1 in casts { for c2 in casts {
+            let t = c2(c1(pk(k)));
+            if typed_b(&c1(pk(k))) && typed_b(&t) { v.push(t); }
+        } }
+        v
+    };
+    let n_t = towers(10).len();
+    let mut out: Vec<Node> = vec![];
+    let mut seen = BTreeSet::new();
+    let mut push = |n: Node, out: &mut Vec<Node>| { if typed_b(&n) && seen.insert(n.wire()) { out.push(n); } };
+    let s_ = |x: Node| Swap(bx(x));
+    let a_ = |x: Node| Alt(bx(x));
+    let v_ = |x: Node| Verify(bx(x));
+    // (1) a tower in one child position, plain keys in the others
+    for i in 0..n_t {
+        if thin && i % 5 != 0 { continue; }
+        let t = towers(10)[i].clone();
+        let cands: Vec<Node> = vec![
+            AndV(bx(v_(t.clone())), bx(pk(1))), AndV(bx(v_(pk(1))), bx(t.clone())),
+            AndB(bx(t.clone()), bx(s_(pk(1)))), AndB(bx(pk(1)), bx(a_(t.clone()))), AndB(bx(pk(1)), bx(s_(t.clone()))),
+            OrB(bx(t.clone()), bx(s_(pk(1)))), OrB(bx(pk(1)), bx(a_(t.clone()))), OrB(bx(pk(1)), bx(s_(t.clone()))),
+            OrD(bx(t.clone()), bx(pk(1))), OrD(bx(pk(1)), bx(t.clone())),
+            AndV(bx(OrC(bx(t.clone()), bx(v_(pk(1))))), bx(True)), AndV(bx(OrC(bx(pk(1)), bx(v_(t.clone())))), bx(True)),
+            OrI(bx(t.clone()), bx(pk(1))), OrI(bx(pk(1)), bx(t.clone())),
+            AndOr(bx(t.clone()), bx(pk(1)), bx(pk(2))), AndOr(bx(pk(1)), bx(t.clone()), bx(pk(2))), AndOr(bx(pk(1)), bx(pk(2)), bx(t.clone())),
+            Thresh(1, vec![t.clone(), s_(pk(1)), s_(pk(2))]), Thresh(2, vec![pk(1), a_(t.clone()), s_(pk(2))]),
+            Thresh(2, vec![pk(1), s_(pk(2)), a_(t.clone())]), Thresh(3, vec![t.clone(), s_(pk(1)), a_(pk(2))]),
+        ];
+        for c in cands { push(c, &mut out); }
+    }
+    // (2) towers in every position at once (three different ones, rotating)
+    for i in 0..n_t {
+        if thin && i % 5 != 1 { continue; }
+        let (t1, t2, t3) = (towers(10)[i].clone(), towers(12)[(i + 7) % n_t].clone(), towers(14)[(i + 13) % n_t].clone());
+        let cands: Vec<Node> = vec![
+            AndV(bx(v_(t1.clone())), bx(t2.clone())), AndB(bx(t1.clone()), bx(a_(t2.clone()))), OrB(bx(t1.clone()), bx(a_(t2.clone()))),
+            OrD(bx(t1.clone()), bx(t2.clone())), OrI(bx(t1.clone()), bx(t2.clone())),
+            AndV(bx(OrC(bx(t1.clone()), bx(v_(t2.clone())))), bx(True)),
+            AndOr(bx(t1.clone()), bx(t2.clone()), bx(t3.clone())),
+            Thresh(2, vec![t1.clone(), a_(t2.clone()), a_(t3.clone())]), Thresh(1, vec![t1.clone(), a_(t2.clone()), a_(t3.clone())]),
+        ];
+        for c in cands { push(c, &mut out); }
+    }
+    // (3) v: over every fragment, with and without a free verify below it: the towers themselves
+    //     and every combinator whose last-executed child is / is not a free-verify fragment
+    let ys: Vec<Node> = vec![pk(3), ZeroNotEqual(bx(pk(3))), Older(13),
+        if tap { MultiA(1, vec![b + 3, b + 4]) } else { Multi(1, vec![b + 3, b + 4]) },
+        OrI(bx(False), bx(pk(3))), AndV(bx(v_(pk(3))), bx(True)), Hash(HK::Hash160, 1)];
+    let mut vs: Vec<Node> = towers(10);
+    for y in &ys {
+        vs.extend([
+            AndV(bx(v_(pk(1))), bx(y.clone())), AndB(bx(pk(1)), bx(s_(y.clone()))), AndB(bx(pk(1)), bx(a_(y.clone()))),
+            OrB(bx(pk(1)), bx(a_(y.clone()))), OrD(bx(pk(1)), bx(y.clone())), OrI(bx(pk(1)), bx(y.clone())), OrI(bx(y.clone()), bx(pk(1))),
+            AndOr(bx(pk(1)), bx(y.clone()), bx(pk(2))), AndOr(bx(pk(1)), bx(pk(2)), bx(y.clone())),
+            Thresh(1, vec![pk(1), s_(y.clone())]), Thresh(2, vec![pk(1), a_(y.clone())]),
+            NonZero(bx(y.clone())), DupIf(bx(v_(y.clone()))),
+        ]);
+    }
+    for (i, x) in vs.into_iter().enumerate() {
+        if thin && i % 3 != 0 { continue; }
+        push(AndV(bx(v_(x.clone())), bx(pk(7))), &mut out);
+        // the verified fragment as the LAST child of and_v: its free verify is inherited upwards
+        push(AndV(bx(v_(AndV(bx(v_(pk(8))), bx(x)))), bx(pk(7))), &mut out);
+    }
+    out
+}
+
+/// `or_d(S, and_v(v:pk,and_v(v:pk,and_v(v:pk,pk))))` with all four signatures available and at most
+/// one asset of S: S is dissatisfied and the path "dissatisfaction of S + 4 signatures" is (with
+/// maximal-length signatures) exactly `S.dissat + 292`, larger than any satisfaction of S in the corpus
+fn dis_embed(ctx: CtxK, s: &Node) -> Option<(Node, Vec<Assets>)> {
+    use Node::*;
+    let b: u32 = if ctx == CtxK::Tap { 200 } else { 0 };
+    fn bx(n: Node) -> Box<Node> { Box::new(n) }
+    let pk = |k: u32| Check(bx(PkK(b + k)));
+    let chain = AndV(bx(Verify(bx(pk(30)))), bx(AndV(bx(Verify(bx(pk(31)))), bx(AndV(bx(Verify(bx(pk(32)))), bx(pk(33)))))));
+    let e = OrD(bx(s.clone()), bx(chain.clone()));
+    if with_ctx9!(ctx, base_of(&e)) != Some(Base::B) { return None; }
+    let chain_assets = Assets::full(&chain);
+    let mut res = vec![];
+    for a in msops::asset_subsets(s, 1024) {
+        let n = a.ecdsa.len() + a.schnorr.len() + a.pre.len() + a.older.len() + a.after.len();
+        if n > 1 { continue; }
+        let mut a = a;
+        a.ecdsa.extend(chain_assets.ecdsa.iter().cloned());
+        for (k, _) in &chain_assets.schnorr { a.schnorr.insert(*k, 65); }
+        res.push(a);
+    }
+    Some((e, res))
+}
+
 /// a Legacy script with 7 uncompressed keys whose size is 506 + 3 * n3 + 4 * n4 bytes
 fn near_520_legacy(n3: usize, n4: usize) -> String {
     let mut s = "older(1)".to_string();
@@ -659,6 +955,22 @@ enum DMode {
     PlanItems,
 }
 
+/// R1: the same two figures asked from the INNER descriptor type's own public method
+/// (`Wsh::`, `Sh::`, `Bare::`, `Pkh::`, `Wpkh::`, `Tr::max_weight_to_satisfy` / `max_satisfaction_weight`)
+#[allow(deprecated)]
+fn inner_figures<Pk: HKey9>(desc: &Descriptor<Pk>) -> (String, String) {
+    let on = |x: Option<u64>| x.map(|v| v.to_string()).unwrap_or("none".into());
+    let r = std::panic::catch_unwind(std::panic::AssertUnwindSafe(|| match desc {
+        Descriptor::Bare(d) => (d.max_weight_to_satisfy().ok().map(|w| w.to_wu()), d.max_satisfaction_weight().ok().map(|w| w as u64)),
+        Descriptor::Pkh(d) => (Some(d.max_weight_to_satisfy().to_wu()), Some(d.max_satisfaction_weight() as u64)),
+        Descriptor::Wpkh(d) => (Some(d.max_weight_to_satisfy().to_wu()), Some(d.max_satisfaction_weight() as u64)),
+        Descriptor::Wsh(d) => (d.max_weight_to_satisfy().ok().map(|w| w.to_wu()), d.max_satisfaction_weight().ok().map(|w| w as u64)),
+        Descriptor::Sh(d) => (d.max_weight_to_satisfy().ok().map(|w| w.to_wu()), d.max_satisfaction_weight().ok().map(|w| w as u64)),
+        Descriptor::Tr(d) => (d.max_weight_to_satisfy().ok().map(|w| w.to_wu()), d.max_satisfaction_weight().ok().map(|w| w as u64)),
+    }));
+    match r { Ok((a, b)) => (on(a), on(b)), Err(_) => ("PANIC".into(), "PANIC".into()) }
+}
+
 /// sh(ms) / wsh(ms) / sh(wsh(ms)) whose miniscript the library declares `within_resource_limits`
 fn declared_within<Pk: HKey9>(desc: &Descriptor<Pk>) -> bool {
     use miniscript::descriptor::ShInner;
@@ -679,6 +991,13 @@ where for<'a> Sat9<'a>: Satisfier<Pk>
     let sat = Sat9 { a: assets, pad, keyspend };
     let mode = if mall { "mall" } else { "nonmall" };
     let head = format!("{} {} {} {} {}", kind, input, assets.wire(), mode, if pad { "pad" } else { "std" });
+    // R4: the figure BEFORE the object is used (on the first call for a descriptor it is fresh: no
+    // spend-info cache in `Tr`), and again after `get_satisfaction` has run on it
+    let fresh = if dm == DMode::Weight {
+        match std::panic::catch_unwind(std::panic::AssertUnwindSafe(|| desc.max_weight_to_satisfy())) {
+            Ok(Ok(w)) => w.to_wu().to_string(), Ok(Err(_)) => "none".into(), Err(_) => "PANIC".into(),
+        }
+    } else { String::new() };
     let res = std::panic::catch_unwind(std::panic::AssertUnwindSafe(|| {
         if mall { desc.get_satisfaction_mall(&sat) } else { desc.get_satisfaction(&sat) }
     }));
@@ -696,7 +1015,8 @@ where for<'a> Sat9<'a>: Satisfier<Pk>
         // independent oracle for the definition in the doc comment: TxIn::segwit_weight difference
         let txin = miniscript::bitcoin::TxIn { script_sig: ss.clone(), witness: miniscript::bitcoin::Witness::from_slice(&wit), ..Default::default() };
         let delta = txin.segwit_weight().to_wu() - miniscript::bitcoin::TxIn::default().segwit_weight().to_wu();
-        out.line(&format!("J descw {} | {} {} claimed={} txin_delta={}", head, hex(ss.as_bytes()), wit_wire(&wit), claimed, delta), "ok");
+        let (inner_w, inner_old) = inner_figures(desc);
+        out.line(&format!("J descw {} | {} {} claimed={} txin_delta={} fresh={} inner={}", head, hex(ss.as_bytes()), wit_wire(&wit), claimed, delta, fresh, inner_w), "ok");
         // a descriptor that passes `sanity_check` is declared within the standardness limits of
         // its kind: the real spend is measured against them
         if declared_within(desc) {
@@ -707,13 +1027,20 @@ where for<'a> Sat9<'a>: Satisfier<Pk>
         #[allow(deprecated)]
         let old = std::panic::catch_unwind(std::panic::AssertUnwindSafe(|| desc.max_satisfaction_weight()));
         match old {
-            Ok(Ok(wgt)) => out.line(&format!("J descwold {} | {} {} claimed={}", head, hex(ss.as_bytes()), wit_wire(&wit), wgt), "ok"),
-            Ok(Err(_)) => out.line(&format!("J descwold {} | {} {} claimed=none", head, hex(ss.as_bytes()), wit_wire(&wit)), "ok"),
+            Ok(Ok(wgt)) => out.line(&format!("J descwold {} | {} {} claimed={} inner={}", head, hex(ss.as_bytes()), wit_wire(&wit), wgt, inner_old), "ok"),
+            Ok(Err(_)) => out.line(&format!("J descwold {} | {} {} claimed=none inner={}", head, hex(ss.as_bytes()), wit_wire(&wit), inner_old), "ok"),
             Err(_) => out.line(&format!("J nopanic desc/max_satisfaction_weight {} PANIC", head), "ok"),
         }
     } else {
+        // R1: `into_plan(_mall)` and the deprecated `plan(_mall)` twins alternate over the corpus
+        static TWIN: std::sync::atomic::AtomicUsize = std::sync::atomic::AtomicUsize::new(0);
+        let twin = TWIN.fetch_add(1, std::sync::atomic::Ordering::Relaxed) % 2 == 1;
+        #[allow(deprecated)]
         let p = std::panic::catch_unwind(std::panic::AssertUnwindSafe(|| {
-            if mall { desc.clone().into_plan_mall(&sat) } else { desc.clone().into_plan(&sat) }
+            match (mall, twin) {
+                (true, false) => desc.clone().into_plan_mall(&sat), (false, false) => desc.clone().into_plan(&sat),
+                (true, true) => desc.clone().plan_mall(&sat), (false, true) => desc.clone().plan(&sat),
+            }
         }));
         let p = match p {
             Ok(Ok(p)) => p,
@@ -733,7 +1060,11 @@ where for<'a> Sat9<'a>: Satisfier<Pk>
         out.line(&format!("J planw {} getsat | {} {} claimed={}", head, hex(ss.as_bytes()), wit_wire(&wit), claimed), "ok");
         // ... and versus what Plan::satisfy itself produces
         match std::panic::catch_unwind(std::panic::AssertUnwindSafe(|| p.satisfy(&sat))) {
-            Ok(Ok((pw, pss))) => out.line(&format!("J planw {} plansat | {} {} claimed={}", head, hex(pss.as_bytes()), wit_wire(&pw), claimed), "ok"),
+            Ok(Ok((pw, pss))) => {
+                // R4: the sizes the plan announces AFTER it has been used
+                let claimed = format!("{},{},{}", p.witness_size(), p.scriptsig_size(), p.satisfaction_weight());
+                out.line(&format!("J planw {} plansat | {} {} claimed={}", head, hex(pss.as_bytes()), wit_wire(&pw), claimed), "ok")
+            }
             Ok(Err(_)) => out.count("plan: Plan::satisfy failed"),
             Err(_) => out.line(&format!("J nopanic desc/Plan::satisfy {} PANIC", head), "ok"),
         }
@@ -742,7 +1073,10 @@ where for<'a> Sat9<'a>: Satisfier<Pk>
 
 /// `plan`: None = weight; Some(true) = plan sizes, full comparison for every kind (keyed corpus);
 /// Some(false) = plan sizes, wsh / sh-wsh restricted to the witness items
-fn desc_ms_cases(out: &mut Out, ctx: CtxK, node: &Node, cap: usize, plan: Option<bool>) {
+fn desc_ms_cases(out: &mut Out, ctx: CtxK, node: &Node, cap: usize, plan: Option<bool>) { desc_ms_cases_p(out, ctx, node, cap, plan, &[false, true]) }
+
+/// `pads`: which signature lengths (library-length / maximal-length) to run
+fn desc_ms_cases_p(out: &mut Out, ctx: CtxK, node: &Node, cap: usize, plan: Option<bool>, pads: &[bool]) {
     let w = node.wire();
     let subsets = asset_subsets9(node, cap);
     let full = match plan { None => DMode::Weight, Some(_) => DMode::PlanFull };
@@ -753,23 +1087,23 @@ fn desc_ms_cases(out: &mut Out, ctx: CtxK, node: &Node, cap: usize, plan: Option
             let d1 = Descriptor::new_wsh(ms.clone());
             let d2 = Descriptor::new_sh_wsh(ms);
             for (kind, d) in [("wsh", d1), ("sh-wsh", d2)] {
-                let d = match d { Ok(d) => d, Err(_) => { out.count("desc: constructor rejected"); continue } };
-                for a in &subsets { for mall in [false, true] { for pad in [false, true] {
+                let d = match d { Ok(d) => d, Err(e) => { out.count(&format!("desc: constructor rejected ({})", e.to_string().chars().take(40).collect::<String>())); continue } };
+                for a in &subsets { for mall in [false, true] { for &pad in pads {
                     finish_desc(out, kind, &w, &d, a, mall, pad, false, wsh_mode);
                 } } }
             }
         }
         CtxK::Legacy => {
             let ms: Miniscript<PublicKey, Legacy> = match ast::to_ms(node) { Ok(m) => m, Err(_) => return };
-            let d = match Descriptor::new_sh(ms) { Ok(d) => d, Err(_) => { out.count("desc: constructor rejected"); return } };
-            for a in &subsets { for mall in [false, true] { for pad in [false, true] {
+            let d = match Descriptor::new_sh(ms) { Ok(d) => d, Err(e) => { out.count(&format!("desc: constructor rejected ({})", e.to_string().chars().take(40).collect::<String>())); return } };
+            for a in &subsets { for mall in [false, true] { for &pad in pads {
                 finish_desc(out, "sh", &w, &d, a, mall, pad, false, full);
             } } }
         }
         CtxK::Bare => {
             let ms: Miniscript<PublicKey, BareCtx> = match ast::to_ms(node) { Ok(m) => m, Err(_) => return };
-            let d = match Descriptor::new_bare(ms) { Ok(d) => d, Err(_) => { out.count("desc: constructor rejected"); return } };
-            for a in &subsets { for mall in [false, true] { for pad in [false, true] {
+            let d = match Descriptor::new_bare(ms) { Ok(d) => d, Err(e) => { out.count(&format!("desc: constructor rejected ({})", e.to_string().chars().take(40).collect::<String>())); return } };
+            for a in &subsets { for mall in [false, true] { for &pad in pads {
                 finish_desc(out, "bare", &w, &d, a, mall, pad, false, full);
             } } }
         }
@@ -781,7 +1115,7 @@ fn desc_ms_cases(out: &mut Out, ctx: CtxK, node: &Node, cap: usize, plan: Option
             let t1 = TapTree::leaf(Arc::new(ms.clone()));
             let t2 = TapTree::combine(TapTree::leaf(Arc::new(other)), TapTree::leaf(Arc::new(ms))).unwrap();
             for (kind, t) in [("tr-leaf", t1), ("tr-2leaves", t2)] {
-                let d = match Descriptor::new_tr(ik, Some(t)) { Ok(d) => d, Err(_) => { out.count("desc: constructor rejected"); continue } };
+                let d = match Descriptor::new_tr(ik, Some(t)) { Ok(d) => d, Err(e) => { out.count(&format!("desc: constructor rejected ({})", e.to_string().chars().take(40).collect::<String>())); continue } };
                 for a in &subsets { for mall in [false, true] {
                     finish_desc(out, kind, &w, &d, a, mall, false, false, full);
                 } }
@@ -830,7 +1164,7 @@ fn tr_tree_cases(out: &mut Out, node: &Node, shape: usize, pos: usize, cap: usiz
     }).collect();
     let tree = build_tree(depths, &mut 0, 0, &leaves);
     let ik = 239u32;
-    let d = match Descriptor::new_tr(ast::xonly_key(ik), Some(tree)) { Ok(d) => d, Err(_) => { out.count("desc: constructor rejected"); return } };
+    let d = match Descriptor::new_tr(ast::xonly_key(ik), Some(tree)) { Ok(d) => d, Err(e) => { out.count(&format!("desc: constructor rejected ({})", e.to_string().chars().take(40).collect::<String>())); return } };
     let kind = format!("tr-{}@{}", name, pos);
     let w = node.wire();
     let dm = if plan { DMode::PlanFull } else { DMode::Weight };
@@ -880,7 +1214,8 @@ pub fn run(out: &mut Out, thorough: bool, seed: u64) {
     emit_defs9(out);
     let mut n_static = 0u64;
     let mut n_judged_scripts = 0u64;
-    let mut desc_pool: Vec<(CtxK, Node)> = vec![];
+    // (context, script, 0 = sampled enumeration pool | n = DESIGNATED corpus, always run, n asset subsets)
+    let mut desc_pool: Vec<(CtxK, Node, usize)> = vec![];
 
     // ---- enumerated + random scripts ------------------------------------------------------
     for ctx in CtxK::ALL {
@@ -895,7 +1230,7 @@ pub fn run(out: &mut Out, thorough: bool, seed: u64) {
             if t.base == Base::B {
                 n_judged_scripts += 1;
                 with_ctx9!(ctx, bound_all(out, ctx, &t.node, if thorough { 64 } else { 12 }));
-                if t.node.size() <= 6 && desc_pool.len() < 4000 { desc_pool.push((ctx, t.node.clone())); }
+                if t.node.size() <= 6 && desc_pool.len() < 4000 { desc_pool.push((ctx, t.node.clone(), 0)); }
             }
         }
         let n_rand = if thorough { 600 } else { 150 };
@@ -921,7 +1256,9 @@ pub fn run(out: &mut Out, thorough: bool, seed: u64) {
             if with_ctx9!(ctx, base_of(&node)) == Some(Base::B) {
                 n_judged_scripts += 1;
                 with_ctx9!(ctx, bound_all(out, ctx, &node, if thorough { 48 } else { 16 }));
-                if node.size() <= 25 { desc_pool.push((ctx, node.clone())); }
+                with_ctx9!(ctx, route_lines(out, ctx, &node));
+                with_ctx9!(ctx, subst_route(out, ctx, &node));
+                desc_pool.push((ctx, node.clone(), 3));
             }
         }
     }
@@ -935,7 +1272,25 @@ pub fn run(out: &mut Out, thorough: bool, seed: u64) {
             if with_ctx9!(ctx, base_of(&node)) == Some(Base::B) {
                 n_judged_scripts += 1;
                 with_ctx9!(ctx, bound_all(out, ctx, &node, if thorough { 24 } else { 8 }));
-                if node.size() <= 25 { desc_pool.push((ctx, node.clone())); }
+                with_ctx9!(ctx, route_lines(out, ctx, &node));
+                with_ctx9!(ctx, subst_route(out, ctx, &node));
+                desc_pool.push((ctx, node.clone(), 2));
+            }
+        }
+    }
+    // ---- the FULL set of wrapper towers (dimension_corpus carries a thin slice only): every tower of
+    //      2-3 wrappers over every atom kind, embedded in B scripts - static figures against the model
+    //      and every produced satisfaction against the figures (not through the descriptor routes)
+    for ctx in CtxK::ALL {
+        let thin: BTreeSet<String> = ast::dimension_corpus(ctx).iter().map(|n| n.wire()).collect();
+        for node in ast::wrapper_towers(ctx) {
+            if thin.contains(&node.wire()) { continue; }
+            n_static += 1;
+            out.count("wrapper-tower script (full set)");
+            with_ctx9!(ctx, static_lines(out, ctx, &node));
+            if with_ctx9!(ctx, base_of(&node)) == Some(Base::B) {
+                n_judged_scripts += 1;
+                with_ctx9!(ctx, bound_all(out, ctx, &node, if thorough { 24 } else { 8 }));
             }
         }
     }
@@ -948,12 +1303,12 @@ pub fn run(out: &mut Out, thorough: bool, seed: u64) {
         out.count("push-boundary script");
         static_lines::<PublicKey, Legacy>(out, CtxK::Legacy, &node);
         bound_all::<PublicKey, Legacy>(out, CtxK::Legacy, &node, 2);
-        desc_pool.push((CtxK::Legacy, node));
+        desc_pool.push((CtxK::Legacy, node, 2));
     }
     // ---- scripts around the declared limits ---------------------------------------------------
     for (ctx, sc) in limit_corpus() {
         let node = parse_node(&sc);
-        if node.size() <= 120 && ctx != CtxK::Tap { desc_pool.push((ctx, node.clone())); }
+        desc_pool.push((ctx, node.clone(), 1));
         n_static += 1;
         n_judged_scripts += 1;
         out.count("limit-corpus script");
@@ -973,7 +1328,9 @@ pub fn run(out: &mut Out, thorough: bool, seed: u64) {
             if with_ctx9!(ctx, base_of(&node)) == Some(Base::B) {
                 n_judged_scripts += 1;
                 with_ctx9!(ctx, bound_all(out, ctx, &node, 32));
-                desc_pool.push((ctx, node.clone()));
+                with_ctx9!(ctx, route_lines(out, ctx, &node));
+                with_ctx9!(ctx, subst_route(out, ctx, &node));
+                desc_pool.push((ctx, node.clone(), 3));
             }
         }
     }
@@ -988,15 +1345,50 @@ pub fn run(out: &mut Out, thorough: bool, seed: u64) {
         }
     }
 
+    // ---- R5: combinators over the results of casts; v: over every free / non-free verify --------
+    for ctx in CtxK::ALL {
+        let thin = matches!(ctx, CtxK::Bare | CtxK::Legacy);
+        for node in cast_towers(ctx, thin) {
+            n_static += 1;
+            n_judged_scripts += 1;
+            out.count("cast-tower script");
+            with_ctx9!(ctx, static_lines(out, ctx, &node));
+            with_ctx9!(ctx, bound_all(out, ctx, &node, if thorough { 32 } else { 11 }));
+            with_ctx9!(ctx, route_lines(out, ctx, &node));
+            if let Some((e, assets)) = dis_embed(ctx, &node) {
+                out.count("cast-tower script, dissatisfaction made the largest path");
+                for a in &assets { for mall in [false, true] {
+                    with_ctx9!(ctx, emit_bound(out, ctx, &e, a, mall, ctx != CtxK::Tap));
+                } }
+            }
+            desc_pool.push((ctx, node, 1));
+        }
+    }
+    // ---- R2: refused today; judged like everything else the day the library accepts them --------
+    for (ctx, sc) in refused_today() {
+        let node = parse_node(sc);
+        n_static += 1;
+        out.count("refused-today script");
+        with_ctx9!(ctx, static_lines(out, ctx, &node));
+        if with_ctx9!(ctx, base_of(&node)) == Some(Base::B) {
+            out.count("refused-today script ACCEPTED");
+            with_ctx9!(ctx, bound_all(out, ctx, &node, 16));
+            desc_pool.push((ctx, node.clone(), 3));
+        }
+    }
     // ---- descriptors: max_weight_to_satisfy, and the plan sizes on the same pool -----------------
     let n_desc = if thorough { 3000 } else { 500 };
-    let step = (desc_pool.len() / n_desc).max(1);
+    let step = (desc_pool.iter().filter(|x| x.2 == 0).count() / n_desc).max(1);
     let mut n_tap = 0usize;
-    for (i, (ctx, node)) in desc_pool.iter().enumerate() {
-        if i % step != 0 && node.size() <= 6 { continue; }
-        desc_ms_cases(out, *ctx, node, if thorough { 6 } else { 3 }, None);
+    for (i, (ctx, node, des)) in desc_pool.iter().enumerate() {
+        // R1: the designated corpora go through every descriptor / plan route in full; only the
+        // enumeration pool is sampled
+        if *des == 0 && i % step != 0 { continue; }
+        let cap = if *des == 0 { 3 } else { *des };
+        desc_ms_cases(out, *ctx, node, if thorough { 2 * cap } else { cap }, None);
         // plan sizes: every kind; for wsh / sh-wsh only the witness items (known finding otherwise)
-        if i % (2 * step) == 0 || node.size() > 6 { desc_ms_cases(out, *ctx, node, 2, Some(false)); }
+        if *des == 1 { desc_ms_cases_p(out, *ctx, node, 1, Some(false), &[true]); }
+        else if *des > 0 || i % (2 * step) == 0 { desc_ms_cases(out, *ctx, node, cap.min(2), Some(false)); }
         if *ctx == CtxK::Tap {
             // deeper / unbalanced trees: shape and position cycle through all combinations
             let shape = n_tap % TR_SHAPES.len();
@@ -1039,7 +1431,7 @@ pub fn run(out: &mut Out, thorough: bool, seed: u64) {
 
     out.note("distinct_nontrivial", (n_static + n_judged_scripts).to_string());
     out.note("domain", format!(
-        "{} nodes of all base types (C ext, C scriptsize): every context, quota-enumerated to depth {} + random larger + hand-written corpus (lock values at every script_num_size boundary, multi k,n around 16/17/20, multi_a n<=40, thresh n<=20 incl. unsatisfiable children, and_v chains to depth 20); {} B-typed scripts judged on every satisfaction the library produces for asset subsets x {{nonmall,mall}} x {{library-length, maximal-length (71-byte DER + sighash)}} ECDSA signatures; descriptors wsh/sh-wsh/sh/bare/tr (1 leaf, 2 leaves, 8 shapes of depth 2..8 with the script at every position, spent through every leaf and the key path)/pkh/wpkh/sh-wpkh for max_weight_to_satisfy, the deprecated max_satisfaction_weight and (sh/wsh/sh-wsh) the standardness limits of the produced spend; plan sizes on the same pool (wsh/sh-wsh: witness items only) plus the keyed corpus; public accessors max_satisfaction_size / max_satisfaction_witness_elements / within_resource_limits / validate(resource limits of CONSENSUS, SANE) on every node (C) and every satisfaction (J). Boundary classes in every tier: ast::dimension_corpus per context; raw pkh of an uncompressed key; Legacy pk_h chains around the 1650-byte scriptSig limit; 200/201/202 opcodes in Legacy and Bare (wrapper towers and executed CHECKMULTISIG keys); Legacy scripts of 74..77 / 254..257 bytes in sh(); tap leaves with 250..253 witness items; Segwitv0 scripts of 3599/3600/3601 bytes; from_ast acceptance of every node is compared with the model (C accept). Every generated script is judged (no class is skipped); the plan-size corpus contains the three known unfixed Plan findings (wsh, sh-wsh, sh-wpkh).",
+        "{} nodes of all base types (C ext, C scriptsize): every context, quota-enumerated to depth {} + random larger + hand-written corpus (lock values at every script_num_size boundary, multi k,n around 16/17/20, multi_a n<=40, thresh n<=20 incl. unsatisfiable children, and_v chains to depth 20); {} B-typed scripts judged on every satisfaction the library produces for asset subsets x {{nonmall,mall}} x {{library-length, maximal-length (71-byte DER + sighash)}} ECDSA signatures; descriptors wsh/sh-wsh/sh/bare/tr (1 leaf, 2 leaves, 8 shapes of depth 2..8 with the script at every position, spent through every leaf and the key path)/pkh/wpkh/sh-wpkh for max_weight_to_satisfy, the deprecated max_satisfaction_weight and (sh/wsh/sh-wsh) the standardness limits of the produced spend; plan sizes on the same pool (wsh/sh-wsh: witness items only) plus the keyed corpus; public accessors max_satisfaction_size / max_satisfaction_witness_elements / within_resource_limits / validate(resource limits of CONSENSUS, SANE) on every node (C) and every satisfaction (J). Routes (quick tier, whole designated corpus = hand corpus + dimension corpus + regression + limit + cast towers): the figures stored in the object built by from_ast, by from_str, by Script decoding (a decoded pk_h is a raw hash: that object is judged on its satisfactions), by the public leaf constructors (incl. pk()/pkh() sugar; object also judged on a satisfaction), by translate_pk, by Clone and by substitute_raw_pkh (object judged); Descriptor::max_weight_to_satisfy / max_satisfaction_weight asked before the first use of the object (fresh), after get_satisfaction (used) and from the inner type's own method (Wsh/Sh/Bare/Pkh/Wpkh/Tr); plans through into_plan(_mall) and the deprecated plan(_mall) twins, sizes read before and after Plan::satisfy; designated scripts are never sampled or size-filtered on the descriptor / plan routes. Interacting neighbours: the full ast::wrapper_towers set, and cast towers - the result of every cast (l: u: t: n: j: dv: over every atom kind, two casts over a key) in every child position of every combinator (plain keys elsewhere, and towers everywhere), v: over every fragment with / without a free verify incl. as the last child of and_v - each judged on full / all-but-one / all-but-two assets and, wrapped as or_d(S, 4 signatures) with at most one asset of S, with the DISSATISFACTION of S as the largest path. Refused-today corpus (uncompressed key in Segwitv0, CHECKMULTISIG in tapscript, CHECKSIGADD outside): C accept today, all judges the day they are accepted. Boundary classes in every tier: ast::dimension_corpus per context; raw pkh of an uncompressed key; Legacy pk_h chains around the 1650-byte scriptSig limit; 200/201/202 opcodes in Legacy and Bare (wrapper towers and executed CHECKMULTISIG keys); Legacy scripts of 74..77 / 254..257 bytes in sh(); tap leaves with 250..253 witness items; Segwitv0 scripts of 3599/3600/3601 bytes; from_ast acceptance of every node is compared with the model (C accept). Every generated script is judged (no class is skipped); the plan-size corpus contains the three known unfixed Plan findings (wsh, sh-wsh, sh-wpkh).",
         n_static, if thorough { 4 } else { 3 }, n_judged_scripts));
 }
 
